@@ -236,6 +236,10 @@ func (p *parser) parseAstTree() (root *astNode, err error) {
 	}
 	p.tokens = p.tokens[:n]
 
+	if len(p.tokens) == 0 {
+		return nil, errors.New("empty expression error")
+	}
+
 	if err = p.check(); err != nil {
 		return nil, err
 	}
